@@ -249,6 +249,13 @@ def gen_cases(ctx):
         yield {"est": {"kind": "path"}, "server_msgs": sm, "cuts": sorted(rng.sample(range(1, raw_len), k)),
                "requests": [{"id": "mix", "mode": rng.choice(["202_then_event", "200_body"])}], "exit": "normal"}
     yield {"est": {"kind": "path"}, "server_msgs": sm, "cuts": list(range(1, raw_len)), "requests": [], "exit": "normal"}
+    # more server messages in one read than the read stream buffers (100), alone and ahead of an answer
+    for n in (100, 101, 150, 400):
+        big = [{"jsonrpc": "2.0", "method": "notifications/progress", "params": {"progressToken": "p", "progress": i}}
+               for i in range(n)]
+        yield {"est": {"kind": "path"}, "server_msgs": big, "cuts": [], "requests": [], "exit": "normal"}
+        yield {"est": {"kind": "path"}, "server_msgs": big, "cuts": [n * 7], "server_msgs_at": 0.05,
+               "requests": [{"id": "after-flood", "mode": "202_then_event", "delay": 0.3}], "exit": "normal"}
     # --- exit paths -----------------------------------------------------------------
     for mode in ("202_then_event", "202_silence", "200_body"):
         yield {"est": {"kind": "path"}, "requests": [{"id": 1, "mode": mode}], "exit": "exception"}
